@@ -378,4 +378,42 @@ def c04_g(ctx: Ctx):
     return res
 
 
-RULES = [c04_a, c04_b, c04_c, c04_d, c04_e, c04_f, c04_g]
+@rule("C04-h")
+def c04_h(ctx: Ctx):
+    """clone() / move() copy from the source job into a handle opened in the target project from the source's own state point."""
+    R = "C04-h"
+    out = []
+    for q, recv in ((CLONE, "self"), (MOVE, "project")):
+        fi = ctx.fn(q)
+        dsts = [n for n in body_nodes(fi) if isinstance(n, ast.Assign) and any(isinstance(t, ast.Name) and t.id == "dst" for t in n.targets)]
+        for d in dsts:
+            v = d.value
+            ok = isinstance(v, ast.Call) and "signac.project:Project.open_job" in common.targets_of(ctx, fi, v) and canon(v.func.value) == recv
+            arg = common.inline_at(ctx, fi, v.args[0], d) if ok and v.args else None
+            src_sp = arg is not None and canon(arg) in ("job.statepoint()", "self.statepoint()", "job.sp()", "self.sp()")
+            if ok and src_sp:
+                out.append(ctx.ok(R, fi, d, f"the destination handle is {recv}.open_job(<a plain copy of the source's state point>)"))
+            elif ok:
+                out.append(ctx.viol(R, fi, d, f"the destination handle is opened from {canon(v.args[0]) if v.args else '?'}, not from a copy of the source job's state point"))
+            else:
+                out.append(ctx.viol(R, fi, d, f"the destination handle is {canon(v)[:60]}, not a job opened in the target project"))
+        prim = [c for c in body_nodes(fi) if isinstance(c, ast.Call) and ((isinstance(c.func, ast.Name) and c.func.id == "copytree") or common.ext_name(ctx, fi, c) in ("os.replace", "os.rename"))]
+        for c in prim:
+            a = [canon(x) for x in c.args[:2]]
+            want = ["job.path", "dst.path"] if q == CLONE else ["self.path", "dst.path"]
+            if a == want:
+                out.append(ctx.ok(R, fi, c, f"{canon(c.func)}({want[0]}, {want[1]}): from the source job's directory to the destination handle's directory"))
+            elif a == list(reversed(want)):
+                out.append(ctx.viol(R, fi, c, f"{canon(c)}: source and destination are swapped"))
+            else:
+                out.append(ctx.inc(R, fi, c, f"arguments {a} are not the two job directories"))
+        rets = [n for n in body_nodes(fi) if isinstance(n, ast.Return) and n.value is not None]
+        if q == CLONE:
+            if rets and all(canon(r.value) == "dst" for r in rets):
+                out.append(ctx.ok(R, fi, rets[0], "clone returns the destination handle"))
+            else:
+                out.append(ctx.viol(R, fi, fi.node, "clone does not return the destination handle"))
+    return out
+
+
+RULES = [c04_a, c04_b, c04_c, c04_d, c04_e, c04_f, c04_g, c04_h]
